@@ -192,6 +192,19 @@ func RouterCases(seed int64, n int) []Case {
 			mk(fmt.Sprintf("router-names-%02d", i), ts, BaseForms[i%3], false, false, "", false, false)
 		}
 	}
+	{
+		// path variables whose inline schema is nullable: a segment is text, "null" included
+		d := NewDoc("router-nullable")
+		nul := func(t, f string) M { m := Prim(t, f); m["nullable"] = true; return m }
+		ok := func(ps ...any) M {
+			return M{"parameters": L(ps), "responses": M{"200": M{"description": "ok"}, "default": M{"description": "err"}}}
+		}
+		d.Op("/orders/{id}", "get", ok(ParamNode("id", "path", true, nul("integer", "int64"))))
+		d.Op("/tags/{tag}", "get", ok(ParamNode("tag", "path", true, nul("string", ""))))
+		d.Op("/mix/{a}/x/{b}", "put", ok(ParamNode("a", "path", true, nul("string", "")), ParamNode("b", "path", true, nul("integer", "int32"))))
+		out = append(out, Case{ID: "router-nullable-variables", Family: "router", Spec: d.Root, Flags: Flags{Client: false}, Safe: true,
+			Label: map[string]string{"set": "nullable-variables", "base": "none", "sec": "", "cors": "false", "typed": "true"}})
+	}
 	fixed := [][]string{
 		{"a", "a/{}"}, {"a/{}"}, {"a/{}/{}"}, {"a/a/{}/{}", "a/a"},
 		{"{}/a/{}/{}", "{}/{}/a"}, {"a/b", "{}/a"}, {"a/b", "{}/b", "a/{}"},
